@@ -315,6 +315,14 @@ func checkC12(c *checkCtx) {
 			"func (p *P) on_s(xs []" + ty + ", y T) int { return len(xs) }\n"
 		addJob("go package: rule type "+name, valid2, src, true)
 	}
+	// action-method names around the "on_<rule>__<suffix>" convention
+	for _, name := range []string{"on__s", "on___s", "on_", "on_s__", "on_s__x__y", "on__", "on_s_", "on_S", "on_s__é"} {
+		src := "package main\n\ntype Token struct{ Type int }\ntype P struct{ lox }\n\nfunc (p *P) on_s(a Token) int { return 0 }\nfunc (p *P) " + name + "(a Token) int { return 0 }\n"
+		if name == "on_s__" || name == "on_s__x__y" {
+			src = "package main\n\ntype Token struct{ Type int }\ntype P struct{ lox }\n\nfunc (p *P) " + name + "(a Token) int { return 0 }\n"
+		}
+		addJob("go package: method named "+name, valid, src, true)
+	}
 	addJob("go package: none", valid, "", false)
 	addJob("no .lox file", "\x00none", okGo, true)
 	addJob("empty .lox file", "", okGo, true)
